@@ -114,6 +114,12 @@ func applyScopes(r *Rule, obs []report.Obligation) {
 			}
 			continue
 		}
+		if r.ID == "DECL-2" {
+			if ps := decl2Scope(o); ps != nil {
+				o.OnlyFor = ps
+			}
+			continue
+		}
 		for _, e := range scopeTable {
 			if e.rule == r.ID && e.construct.MatchString(o.Construct) {
 				var ps []string
@@ -146,6 +152,39 @@ func decl1Scope(o *report.Obligation) []string {
 		"Value":     {"C02", "C06", "C19"},
 	}
 	re := regexp.MustCompile(`^field (\w+) is not `)
+	set := map[string]bool{}
+	for _, p := range strings.Split(o.Detail, "; ") {
+		m := re.FindStringSubmatch(p)
+		if m == nil {
+			return nil
+		}
+		ps, ok := field[m[1]]
+		if !ok {
+			return nil
+		}
+		for _, x := range ps {
+			set[x] = true
+		}
+	}
+	var out []string
+	for p := range set {
+		out = append(out, p)
+	}
+	sort.Strings(out)
+	return out
+}
+
+// decl2Scope: a short form whose only fault is a field built from the wrong parameter matters to the
+// properties that read that field (Desc: the help; Value: the default). Anything else stays with all.
+func decl2Scope(o *report.Obligation) []string {
+	if o.Status != report.Violated {
+		return nil
+	}
+	field := map[string][]string{
+		"Desc":  {"C17"},
+		"Value": {"C06"},
+	}
+	re := regexp.MustCompile(`^field (\w+) is not the parameter`)
 	set := map[string]bool{}
 	for _, p := range strings.Split(o.Detail, "; ") {
 		m := re.FindStringSubmatch(p)
